@@ -890,7 +890,7 @@ func Run(c *vl.Ctx) {
 		"error diagnostics with no location whose cause is not a place in an input file (unusable entry file, tool-chain failure, back-end summary, missing main) are counted, not judged",
 		"a failing class is reported through its first three inputs in enumeration order; the remaining inputs of the class are counted")
 	c.Finish(vl.Coverage{Evaluations: atomic.LoadInt64(&k.evals), Exhaustive: exhaustive,
-		Rule: fmt.Sprintf("all token strings of the levels %s (full = %d symbols, core = %d symbols, core16 = 16 symbols) in 4 frames; delete/duplicate/swap/prefix at every token of %d corpus programs%s; all byte strings of length <=3 over 12 bytes (bare and inside main); all layouts of <=3 files over 11 file states (%d layouts), wasm in-process for every accepted input; real binary (both targets) for every layout, every control, every accepted input of the small families, every failing class and one representative per diagnostic-code class",
+		Rule: fmt.Sprintf("all token strings of the levels %s (full = %d symbols, core = %d symbols, core16 = 16 symbols) in 4 frames; delete/duplicate/swap/prefix at every token of %d corpus programs%s; all byte strings of length <=3 over 12 bytes (bare and inside main); all layouts of <=3 files over 11 file states (%d layouts), wasm in-process for every accepted input; real binary for every layout (quick: wasm target only for layouts of <=2 files and accepted ones), every control, every accepted input of the small families, every failing class and one representative per diagnostic-code class",
 			lvNames, A, len(core), len(ctl), map[bool]string{true: "", false: " and every byte prefix"}[quick], len(projIn)),
 		Bound: fmt.Sprintf("token levels=%s alphabet=%d/%d frames=4 corpus=%d bytes<=3 files<=3 states=11", lvNames, A, len(core), len(ctl))})
 }
@@ -899,10 +899,11 @@ func Run(c *vl.Ctx) {
 // process-level oracle
 
 var (
-	reErrHdr  = regexp.MustCompile(`(?m)^error(\[[^\]\n]*\])?: (.*)$`)
-	reGoPanic = regexp.MustCompile(`(?m)^(panic: |fatal error: |runtime: )`)
-	reFrame   = regexp.MustCompile(`(?m)^(compiler/.+|main\..+)\([^()]*\)$`)
-	reTemp    = regexp.MustCompile(`%[A-Za-z_.][A-Za-z0-9_.]*|\$[A-Za-z_.][A-Za-z0-9_.]*`)
+	reErrHdr    = regexp.MustCompile(`(?m)^error(\[[^\]\n]*\])?: (.*)$`)
+	reGoPanic   = regexp.MustCompile(`(?m)^(panic: |fatal error: |runtime: )`)
+	reFrame     = regexp.MustCompile(`(?m)^(compiler/.+|main\..+)\([^()]*\)$`)
+	reGoroutine = regexp.MustCompile(`(?m)^goroutine \d+ \[`)
+	reTemp      = regexp.MustCompile(`%[A-Za-z_.][A-Za-z0-9_.]*|\$[A-Za-z_.][A-Za-z0-9_.]*`)
 )
 
 type procJob struct {
@@ -961,7 +962,14 @@ func (k *chk) procStage(rn *run.Runner, deadline time.Time, projIn, ctl []*input
 		}
 	}
 	for _, in := range projIn {
-		add(in, "layout", "native", "wasm")
+		// quick: the wasm target is run for the layouts of <=2 files; three-file layouts that the
+		// front end rejects take the same path for both targets and are run natively only (the
+		// accepted ones get both targets below). thorough: both targets for every layout.
+		if k.c.Quick() && strings.HasPrefix(in.id, "proj/fan/") {
+			add(in, "layout", "native")
+		} else {
+			add(in, "layout", "native", "wasm")
+		}
 	}
 	// accepted inputs of the small families
 	{
@@ -985,12 +993,21 @@ func (k *chk) procStage(rn *run.Runner, deadline time.Time, projIn, ctl []*input
 		}
 		sort.Strings(keys)
 		var rs []*input
+		okClass := map[string]bool{} // representatives of classes without errors: both targets
 		for _, key := range keys {
 			rs = append(rs, k.reps[key].in)
+			if !strings.Contains(key, ":E[") {
+				okClass[k.reps[key].in.id] = true
+			}
 		}
 		k.mu.Unlock()
 		sort.SliceStable(rs, func(i, j int) bool { return rs[i].ord < rs[j].ord })
 		for _, in := range rs {
+			if !okClass[in.id] {
+				// the front end rejects it: both targets take the same path
+				add(in, "representative", "native")
+				continue
+			}
 			add(in, "representative", "native", "wasm")
 		}
 	}
@@ -1104,7 +1121,10 @@ func (k *chk) procOne(rn *run.Runner, j procJob) {
 	}
 	desc := fmt.Sprintf("target=%s %s error-headers=[%s] out.bin=%v out.wasm=%v", j.target, p.Term(), hcodes, bin, wasm)
 	c.Outcome(fmt.Sprintf("proc:%s:%s:%s:artefact=%v", j.target, p.Term(), map[bool]string{true: "E", false: "-"}[len(hdrs) > 0], bin || wasm))
-	if p.Signal != "" || reGoPanic.MatchString(out) {
+	// a Go crash: a "panic:"/"fatal error:" line (possibly glued to a half-printed diagnostic)
+	// followed by a goroutine dump
+	goCrash := reGoPanic.MatchString(out) || ((strings.Contains(out, "panic: ") || strings.Contains(out, "fatal error: ")) && reGoroutine.MatchString(out))
+	if p.Signal != "" || goCrash {
 		// the topmost frame of the compiler; when that is one of the label builders of the
 		// diagnostics package (WithLabel & co.), the caller that passed the bad location
 		fr := "unknown"
@@ -1122,7 +1142,12 @@ func (k *chk) procOne(rn *run.Runner, j procJob) {
 			}
 		}
 		first := ""
-		if m := reGoPanic.FindStringIndex(out); m != nil {
+		if i := strings.Index(out, "panic: "); i >= 0 {
+			first = out[i:]
+			if j := strings.IndexByte(first, '\n'); j >= 0 {
+				first = first[:j]
+			}
+		} else if m := reGoPanic.FindStringIndex(out); m != nil {
 			first = out[m[0]:]
 			if i := strings.IndexByte(first, '\n'); i >= 0 {
 				first = first[:i]
